@@ -171,7 +171,7 @@ type agg struct {
 	steps, refSteps, maxSt int64
 	switches, preempt      int64
 	forced                 int64
-	ops                    int64
+	ops, iso               int64
 	races                  int
 	faults, probes         map[string]int64
 	sitesHit, sitesSwitch  map[int]bool
@@ -218,6 +218,7 @@ func (a *agg) add(b *build, r runOut) {
 	a.preempt += res.Preemptions
 	a.forced += res.ForcedYields
 	a.ops += int64(res.Ops)
+	a.iso += int64(res.IsoChecked)
 	a.races += r.races
 	for k, v := range res.Faults {
 		a.faults[k] += v
